@@ -85,7 +85,7 @@ def gen_cases(tier, seed):
             yield {'program': prog, 'resumes': resumes, 'crash': [], 'ci': ci, 'paused_crash': b}
         if resumes:
             # a pause request arriving in the same loop iteration as the resume (before / after it), played afterwards
-            for mode in ('pause-resume', 'resume-pause'):
+            for mode in ('pause-resume', 'resume-pause', 'pause-on-waiting'):
                 yield {'program': prog, 'resumes': resumes, 'crash': [], 'ci': ci, 'resume_mode': mode}
 
 
